@@ -444,8 +444,8 @@ fn random_write_case(rng: &mut Rng, rep: &mut Report) {
 }
 
 pub fn run(ctx: &Ctx) -> Outcome {
-    let n_rand = ctx.size(150_000, 15_000_000);
-    let n_write = ctx.size(50_000, 5_000_000);
+    let n_rand = ctx.size(1_200_000, 15_000_000);
+    let n_write = ctx.size(400_000, 5_000_000);
     let shards = 64usize;
     let report = run_sharded(ctx, 3 + 1 + shards, |shard, rep| {
         if shard < 3 {
